@@ -226,6 +226,72 @@ def delimiter_lines_ok(octets, bounds):
     return bad
 
 
+def ctype_multi_cases(rng, n):
+    kinds = [b"mixed", b"alternative", b"related", b"signed", b"encrypted", b"report", b"digest", b"parallel", b"x-custom"]
+    extras = [[], [(b"type", b"text/html"), (b"start", b"<root.1@x.example>")], [(b"differences", b"Content-Type")], [(b"x-note", b"hello world")],
+              [(b"protocol", b"application/pgp-signature"), (b"micalg", b"pgp-sha256")], [(b"protocol", b"application/pgp-encrypted")],
+              [(b"report-type", b"delivery-status")], [(b"charset", b"utf-8")], [(b"type", b"application/xop+xml"), (b"start-info", b"text/xml"), (b"x-a", b"1")]]
+    out = []
+    for k in kinds:
+        for ex in extras:
+            out.append((k, ex))
+    rng.shuffle(out)
+    cases = []
+    for i, (k, ex) in enumerate(out[:n] if n < len(out) else out + [(rng.choice(kinds), rng.choice(extras)) for _ in range(n - len(out))]):
+        b = bytes(rng.choice(BCHARS) for _ in range(rng.choice([1, 8, 40, 69, 70]))).rstrip(b" ") or b"b"
+        params = list(ex)
+        params.insert(rng.randrange(len(params) + 1), (b"boundary", b))
+        text = b"multipart/" + k + b"".join(b"; " + pn + b'="' + pv + b'"' for pn, pv in params)
+        cases.append({"text": text, "kind": k, "params": {pn: pv for pn, pv in params}, "boundary": b})
+    return cases
+
+
+def ctype_multi_judge(c, octets, last):
+    """None, or what is wrong with the Content-Type field of the multipart in `octets`"""
+    key = b"Content-Type: multipart/"
+    at = octets.rfind(key) if last else octets.find(key)
+    if at < 0:
+        return "no multipart Content-Type field"
+    end = at
+    while True:
+        e = octets.find(b"\r\n", end)
+        if e < 0:
+            return "unterminated field"
+        end = e + 2
+        if octets[end:end + 1] not in (b" ", b"\t"):
+            break
+    value = octets[at + len(b"Content-Type: "):end - 2].replace(b"\r\n", b"")
+    parts, cur, q, esc = [], b"", False, False
+    for ch in value:
+        ch = bytes([ch])
+        if esc:
+            cur += ch; esc = False
+        elif q and ch == b"\\":
+            esc = True
+        elif ch == b'"':
+            q = not q
+        elif ch == b";" and not q:
+            parts.append(cur); cur = b""
+        else:
+            cur += ch
+    parts.append(cur)
+    mt = parts[0].strip().lower()
+    got = {}
+    for p_ in parts[1:]:
+        if b"=" not in p_:
+            return "parameter without '=': %r" % p_
+        pn, pv = p_.split(b"=", 1)
+        got[pn.strip().lower()] = pv.strip()
+    if mt != b"multipart/" + c["kind"]:
+        return "media type %r" % mt
+    if got != c["params"]:
+        return "parameters read back %r, written %r" % (got, c["params"])
+    body = octets[end:]
+    if body.count(b"--" + c["boundary"] + b"\r\n") < 2 or b"--" + c["boundary"] + b"--\r\n" not in body:
+        return "the delimiter lines do not use the announced boundary %r" % c["boundary"]
+    return None
+
+
 def run(ctx):
     # generated boundaries of multiparts made on different threads (they end up nested into one another) all differ
     thr = run_impl(["mime.threads\t8\t6", "mime.threads\t2\t1", "mime.threads\t16\t3"])
@@ -379,6 +445,26 @@ def run(ctx):
             if kf[0] == "ok" and all(x is not None for x in _customs(k)) and unhx(kf[1]) not in alone:
                 obad.append((-1, "a child formatted alone differs from its octets inside the parent"))
             break
+    # a multipart whose Content-Type the caller wrote out in full and gave to MultiPartBuilder::header: the field that is written announces the
+    # same media type and exactly the same parameters (boundary, type, start, protocol, report-type, ...), alone, as the root of a message and
+    # nested; the delimiter lines use the announced boundary
+    ct_cases = ctype_multi_cases(rng, 60 if ctx.tier == "quick" else 600)
+    ct_res = run_impl(["mime.ctype_multi\t" + hx(c["text"]) for c in ct_cases])
+    ct_ok = 0
+    for c, r in zip(ct_cases, ct_res):
+        ctx.count()
+        f = r.split("\t")
+        if f[0] != "ok":
+            obad.append((-1, "a multipart built from the Content-Type %r: %s" % (c["text"], r[:120])))
+            continue
+        for where, octets in zip(("alone", "message root", "nested"), (unhx(x) for x in f[1:4])):
+            why = ctype_multi_judge(c, octets, last=(where == "nested"))
+            if why:
+                obad.append((-1, "a multipart built from the Content-Type %r, formatted %s: %s" % (c["text"], where, why)))
+                break
+        else:
+            ct_ok += 1
+    ctx.cov["oracle"]["caller_written_multipart_content_types"] = {"cases": len(ct_cases), "read_back_equal": ct_ok}
     ctx.cov["correspondence"]["mime_format"] = {"trees": len(trees), "disagreements": len(cbad), "impl_panics": stats["panic"], "impl_errors": stats["err"], "message_level": len(sub)}
     ctx.cov["rule"] = ("every multipart kind x {generated, custom boundary} x child shapes (empty, single kinds, nested) plus seeded random trees up to depth 4 and fan-out 5 of plain/html/attachment/inline/custom "
                        "single parts (String and Vec<u8> contents: C10's classes, delimiter look-alikes, binary, 5 KB random) and mixed/alternative/related/signed/encrypted multiparts with generated or custom (1..70 bchars) boundaries; "
